@@ -321,6 +321,32 @@ CHECKS["C05"] = dict(
               "scenarios replayed into Collocator.collocate_filesets with real and fake processes; queue logs validated by TLC "
               "(PipelineTrace)")
 
+# additions of seeding rounds 6 and 7 (DESIGN.md section 14)
+LATE = {
+    "C01": " Queries include pairs of staggered, overlapping exclusion periods (FindCases!XStaggered); every filtered find is "
+           "repeated with the same filter dictionary object; a copy narrowed to another tag must not move the original's answers.",
+    "C02": " A fifth spelling repeats every date field in cumulative directory levels; a user placeholder occurs twice; a "
+           "time_coverage next to end fields must not replace the end the name gives.",
+    "C03": " IntervalCases!ReplicationLaw (S stored k times over answers with shifted copies) is model-checked and replayed with "
+           "int8 ... float32 arrays that hold more rows than their dtype can count; match() also with fractional max_interval.",
+    "C04": " max_interval in 11 spellings incl. numpy scalars and zero; time bins that do not begin with a point; narrow bins "
+           "(bin_factor < 1) with pairs further apart than one bin.",
+    "C05": " Every yielded dataset must announce, and every written file be named by, the time span of the primary points it holds.",
+    "C10": " align(): nested primaries (a secondary shared by primaries that are not neighbours); a read error inside a bundle.",
+    "C11": " A user-defined placeholder regex with a foreign file in the fileset's directories that no operation may touch; falsy "
+           "contents; whole-fileset read-back through collect(); post_reader on compressed files.",
+    "C12": " Names at the file system's NAME_MAX.",
+    "C13": " Group names of which one begins with the other; labelled channels in opposite orders; infinite values.",
+    "C15": " Catalogues with a non-UTF-8 file name, with the time_coverage option (last file ending at datetime.max) and with a "
+           "handler (info_via='both') whose get_info fails on the first look at every file.",
+    "C16": " A narrowed copy must not move the original's answers; failed reads on compressed files; a nominal time_coverage "
+           "next to end fields.",
+    "C17": " OemProps!BlockLaw (block-diagonal problems have block-diagonal S, G, A) is model-checked and replayed as histories of "
+           "composed problems with up to 39 measurements that share their outer blocks.",
+    "C20": " TileCache has a 'garbage' outcome (a transfer that completes without delivering an archive); the cache directory "
+           "carries glob metacharacters; the client changes returned grids in place between two requests; rectangles at 60 S.",
+}
+
 NOT_APPLICABLE = {
     "C07": "Every clause concerns floating-point accuracy of sin/cos/arctan2/sqrt compositions or convergence of a "
            "fixed-point iteration over a continuous domain; TLA+/TLC has no reals or transcendental functions and there "
@@ -342,7 +368,7 @@ def main():
                 "thorough_cmd": "bin/check %s --tier thorough" % pid,
                 "evidence_file": "/verif/evidence/%s.json" % pid,
                 "engine": "tlc+replay",
-                "level_claimed": {"category": MC, "text": c["text"], "design_ref": c["ref"]},
+                "level_claimed": {"category": MC, "text": c["text"] + LATE.get(pid, ""), "design_ref": c["ref"]},
                 "level_note": c["note"],
                 "technique": c["technique"],
             })
